@@ -1183,6 +1183,13 @@ fn hang_binop_expression(
             // Only use the indented shape if we are planning to hang
             let shape = if should_hang { test_shape } else { shape };
 
+            // The LHS of `^` must keep its parentheses if it is a unary operation [e.g. `(-X) ^ Y`]
+            let lhs_context = if let BinOp::Caret(_) = binop {
+                ExpressionContext::BinaryLHSExponent
+            } else {
+                expression_context
+            };
+
             let mut new_binop = format_binop(ctx, &binop, shape);
             if should_hang {
                 new_binop = hang_binop(ctx, binop.to_owned(), shape, &rhs);
@@ -1206,7 +1213,7 @@ fn hang_binop_expression(
                                 },
                                 lhs_shape,
                                 lhs_range,
-                                expression_context,
+                                lhs_context,
                             ),
                             if contains_comments(&*rhs) {
                                 hang_binop_expression(
@@ -1234,7 +1241,7 @@ fn hang_binop_expression(
                                     binop.clone(),
                                     shape,
                                     lhs_range,
-                                    expression_context,
+                                    lhs_context,
                                 )
                             } else {
                                 let context = if let BinOp::Caret(_) = binop {
@@ -1269,7 +1276,7 @@ fn hang_binop_expression(
                             binop.to_owned(),
                             shape,
                             lhs_range,
-                            expression_context,
+                            lhs_context,
                         )
                     } else {
                         let context = if let BinOp::Caret(_) = binop {
@@ -1464,7 +1471,11 @@ fn format_hanging_expression_(
                 binop.to_owned(),
                 shape,
                 lhs_range,
-                ExpressionContext::UnaryOrBinary,
+                if let BinOp::Caret(_) = binop {
+                    ExpressionContext::BinaryLHSExponent
+                } else {
+                    ExpressionContext::UnaryOrBinary
+                },
             );
 
             let current_shape = shape.take_last_line(&lhs) + 1; // 1 = space before binop
@@ -1478,7 +1489,7 @@ fn format_hanging_expression_(
                 binop.to_owned(),
                 singleline_shape,
                 None,
-                ExpressionContext::Standard,
+                ExpressionContext::UnaryOrBinary,
             );
 
             // Examine the last line to see if we need to hang this binop, or if the precedence levels match
@@ -1499,7 +1510,7 @@ fn format_hanging_expression_(
                     binop.to_owned(),
                     hanging_shape,
                     None,
-                    ExpressionContext::Standard,
+                    ExpressionContext::UnaryOrBinary,
                 )
                 .update_leading_trivia(FormatTriviaType::Replace(Vec::new()));
             }
